@@ -241,12 +241,15 @@ theorem dget_dset (k : String) (i : Nat) (d : Sched2.Dict) (a : String) :
         simp only [he', Bool.not_false, if_true, List.find?_cons]
         cases e.1 == a <;> simp [ih]
 
+/-- every object of `a` is, unchanged, an object of `b` (allocation only adds) -/
+def StoreLe (a b : PyStore ScheduledPTRQuery) : Prop := ∀ j o, PyStore.get? a j = some o → PyStore.get? b j = some o
+
 /-- the constructor call followed by `_schedule_ptr_query`: the model's `schedule2` of the same query -/
-theorem schedule_new_eq {c : Cfg} {s : QueryScheduler} {m : S2} (h : Rel c s m) (hok : StoreOk s) (hl : s.loop.isSome)
+theorem schedule_new_eq' {c : Cfg} {s : QueryScheduler} {m : S2} (h : Rel c s m) (hok : StoreOk s) (hl : s.loop.isSome)
     (o : ScheduledPTRQuery) (now : Int) :
     ∃ s' eff, QueryScheduler.schedule_ptr_query { s with store := (PyStore.alloc s.store o).2 } (PyStore.alloc s.store o).1 = .ok (s', eff)
       ∧ Rel c s' (schedule2 m (toQ o)) ∧ StoreOk s' ∧ s'.loop = s.loop
-      ∧ armedAfter now m.armed eff = (schedule2 m (toQ o)).armed ∧ sendsOf c eff = [] := by
+      ∧ armedAfter now m.armed eff = (schedule2 m (toQ o)).armed ∧ sendsOf c eff = [] ∧ StoreLe s.store s'.store := by
   have hnew : PyStore.get? (PyStore.alloc s.store o).2 s.store.next = some o := PyStore.get?_alloc_new hok.fresh o
   have hget : PyStore.get (PyStore.alloc s.store o).2 s.store.next = .ok o := by simp [PyStore.get, hnew]
   -- the state after the two container updates
@@ -308,7 +311,13 @@ theorem schedule_new_eq {c : Cfg} {s : QueryScheduler} {m : S2} (h : Rel c s m) 
       · rw [h1, hnew]; rfl
   have hl1 : s1.loop.isSome := hl
   obtain ⟨s', eff, he, hr, hloop, hst, hhp, hdc, harm, hsend⟩ := rearm_if_earlier_eq hrel1 o.when_millis now hl1
-  refine ⟨s', eff, ?_, ?_, ?_, hloop, ?_, hsend⟩
+  refine ⟨s', eff, ?_, ?_, ?_, hloop, ?_, hsend, ?_⟩
+  rotate_left 4
+  · intro j o' hj
+    rw [hst]
+    show PyStore.get? (PyStore.alloc s.store o).2 j = some o'
+    rw [PyStore.get?_alloc_old o (PyStore.lt_next_of_get? hok.fresh hj)]
+    exact hj
   · unfold QueryScheduler.schedule_ptr_query
     simp only [PyStore.alloc] at hget ⊢
     simp only [hget, bind, Except.bind, pure, Except.pure]
@@ -320,6 +329,14 @@ theorem schedule_new_eq {c : Cfg} {s : QueryScheduler} {m : S2} (h : Rel c s m) 
   · exact ⟨by rw [hst]; exact hok1.fresh, by rw [hhp, hst]; exact hok1.heapIds, by rw [hhp, hst]; exact hok1.heapStored,
       by rw [hdc]; exact hok1.dictWF⟩
   · exact harm
+
+theorem schedule_new_eq {c : Cfg} {s : QueryScheduler} {m : S2} (h : Rel c s m) (hok : StoreOk s) (hl : s.loop.isSome)
+    (o : ScheduledPTRQuery) (now : Int) :
+    ∃ s' eff, QueryScheduler.schedule_ptr_query { s with store := (PyStore.alloc s.store o).2 } (PyStore.alloc s.store o).1 = .ok (s', eff)
+      ∧ Rel c s' (schedule2 m (toQ o)) ∧ StoreOk s' ∧ s'.loop = s.loop
+      ∧ armedAfter now m.armed eff = (schedule2 m (toQ o)).armed ∧ sendsOf c eff = [] := by
+  obtain ⟨s', eff, h1, h2, h3, h4, h5, h6, _⟩ := schedule_new_eq' h hok hl o now
+  exact ⟨s', eff, h1, h2, h3, h4, h5, h6⟩
 
 /-! ### `cancel_ptr_refresh` = the model's `cancel2` -/
 
@@ -540,11 +557,11 @@ def rescueStep (now : Int) (m : S2) (q : Q) : S2 :=
 
 /-- **`schedule_rescue_query`** (called with `RESCUE_RECORD_RETRY_TTL_PERCENTAGE` = 100 ‰) of a live stored object is the model's
 `rescueOf` + `schedule2`: nothing when the retry would fall at or after the expiry, else a new object `ttl/10` ahead -/
-theorem schedule_rescue_query_eq {c : Cfg} {s : QueryScheduler} {m : S2} (h : Rel c s m) (hok : StoreOk s) (hl : s.loop.isSome)
+theorem schedule_rescue_query_eq' {c : Cfg} {s : QueryScheduler} {m : S2} (h : Rel c s m) (hok : StoreOk s) (hl : s.loop.isSome)
     (i : Nat) (o : ScheduledPTRQuery) (ho : PyStore.get? s.store i = some o) (hc : o.cancelled = false) (now clk : Int) :
     ∃ s' eff, s.schedule_rescue_query i now 100 = .ok (s', eff)
       ∧ Rel c s' (rescueStep now m (toQ o)) ∧ StoreOk s' ∧ s'.loop = s.loop
-      ∧ armedAfter clk m.armed eff = (rescueStep now m (toQ o)).armed ∧ sendsOf c eff = [] := by
+      ∧ armedAfter clk m.armed eff = (rescueStep now m (toQ o)).armed ∧ sendsOf c eff = [] ∧ StoreLe s.store s'.store := by
   have hget : PyStore.get s.store i = .ok o := by simp [PyStore.get, ho]
   unfold QueryScheduler.schedule_rescue_query rescueStep rescueOf
   simp only [hget, bind, Except.bind, pure, Except.pure, Gen.Browser.rescue_next, Gen.Browser.rescue_ttl_millis, Gen.Browser.rescue_stop,
@@ -557,18 +574,404 @@ theorem schedule_rescue_query_eq {c : Cfg} {s : QueryScheduler} {m : S2} (h : Re
   by_cases hstop : now + (o.ttl : Int) * 100 ≥ o.expire_time_millis
   · have h1 : now * 1000 + (o.ttl : Int) * 1000 * 100 * 1 ≥ o.expire_time_millis * 1000 := by omega
     simp only [h1, hstop, decide_true, if_true]
-    exact ⟨s, [], rfl, h, hok, rfl, rfl, rfl⟩
+    exact ⟨s, [], rfl, h, hok, rfl, rfl, rfl, fun _ _ hj => hj⟩
   · have h1 : ¬ now * 1000 + (o.ttl : Int) * 1000 * 100 * 1 ≥ o.expire_time_millis * 1000 := by omega
     simp only [h1, hstop, decide_false, Bool.false_eq_true, if_false]
-    obtain ⟨s', eff, he, hr, hk, hloop, harm, hsend⟩ :=
-      schedule_new_eq h hok hl (ScheduledPTRQuery.init o.alias o.name o.ttl o.expire_time_millis (now + (o.ttl : Int) * 100)) clk
+    obtain ⟨s', eff, he, hr, hk, hloop, harm, hsend, hle⟩ :=
+      schedule_new_eq' h hok hl (ScheduledPTRQuery.init o.alias o.name o.ttl o.expire_time_millis (now + (o.ttl : Int) * 100)) clk
     have hq : toQ (ScheduledPTRQuery.init o.alias o.name o.ttl o.expire_time_millis (now + (o.ttl : Int) * 100))
         = { alias := o.alias, name := o.name, ttl := o.ttl, cancelled := o.cancelled, expire := o.expire_time_millis,
             when := now + (o.ttl : Int) * 100 } := by
       simp only [toQ, ScheduledPTRQuery.init, hc]
     rw [hq] at hr harm
-    refine ⟨s', eff, ?_, hr, hk, hloop, harm, hsend⟩
+    refine ⟨s', eff, ?_, hr, hk, hloop, harm, hsend, hle⟩
     rw [he]
     rfl
+
+theorem schedule_rescue_query_eq {c : Cfg} {s : QueryScheduler} {m : S2} (h : Rel c s m) (hok : StoreOk s) (hl : s.loop.isSome)
+    (i : Nat) (o : ScheduledPTRQuery) (ho : PyStore.get? s.store i = some o) (hc : o.cancelled = false) (now clk : Int) :
+    ∃ s' eff, s.schedule_rescue_query i now 100 = .ok (s', eff)
+      ∧ Rel c s' (rescueStep now m (toQ o)) ∧ StoreOk s' ∧ s'.loop = s.loop
+      ∧ armedAfter clk m.armed eff = (rescueStep now m (toQ o)).armed ∧ sendsOf c eff = [] := by
+  obtain ⟨s', eff, h1, h2, h3, h4, h5, h6, _⟩ := schedule_rescue_query_eq' h hok hl i o ho hc now clk
+  exact ⟨s', eff, h1, h2, h3, h4, h5, h6⟩
+
+/-! ### `_process_ready_types` = the model's `fireReady2` -/
+
+theorem sendsOf_append (c : Cfg) (a b : List SEffect) : sendsOf c (a ++ b) = sendsOf c a ++ sendsOf c b := by
+  unfold sendsOf
+  rw [List.filterMap_append]
+
+/-- the loop `for query in schedule_rescue: self.schedule_rescue_query(query, now_millis, …)` over live stored objects is the model's
+fold of `rescueOf` + `schedule2` -/
+theorem rescue_loop {c : Cfg} (now : Int) (objs : List (Nat × ScheduledPTRQuery)) :
+    ∀ (s : QueryScheduler) (m : S2) (eff0 : List SEffect)
+      (f : Nat → QueryScheduler × List SEffect → Except PyExc (ForInStep (QueryScheduler × List SEffect))),
+      (∀ q st, f q st = match st.1.schedule_rescue_query q now 100 with
+        | .error e => .error e
+        | .ok v => .ok (.yield (v.1, st.2 ++ v.2))) →
+      Rel c s m → StoreOk s → s.loop.isSome →
+      (∀ p ∈ objs, PyStore.get? s.store p.1 = some p.2 ∧ p.2.cancelled = false) →
+      ∃ s' eff, forIn (objs.map (·.1)) (s, eff0) f = .ok (s', eff0 ++ eff)
+        ∧ Rel c s' ((objs.map (fun p => toQ p.2)).foldl (rescueStep now) m) ∧ StoreOk s' ∧ s'.loop = s.loop
+        ∧ StoreLe s.store s'.store ∧ sendsOf c eff = [] := by
+  induction objs with
+  | nil =>
+    intro s m eff0 f _ h hok _ _
+    exact ⟨s, [], by simp [pure, Except.pure], h, hok, rfl, fun _ _ hj => hj, rfl⟩
+  | cons p r ih =>
+    intro s m eff0 f hf h hok hl hst
+    obtain ⟨hp, hc⟩ := hst p (List.mem_cons_self ..)
+    obtain ⟨s1, e1, he, hr, hk, hloop, _, hsend, hle⟩ := schedule_rescue_query_eq' h hok hl p.1 p.2 hp hc now 0
+    have hl1 : s1.loop.isSome := by rw [hloop]; exact hl
+    obtain ⟨s', eff, hfor, hr', hk', hloop', hle', hsend'⟩ := ih s1 _ (eff0 ++ e1) f hf hr hk hl1
+      (fun q hq => ⟨hle _ _ (hst q (List.mem_cons_of_mem _ hq)).1, (hst q (List.mem_cons_of_mem _ hq)).2⟩)
+    refine ⟨s', e1 ++ eff, ?_, hr', hk', by rw [hloop', hloop], fun j o hj => hle' _ _ (hle _ _ hj), ?_⟩
+    · rw [List.map_cons, List.forIn_cons, hf]
+      simp only [he, bind, Except.bind]
+      rw [hfor, List.append_assoc]
+    · rw [sendsOf_append, hsend, hsend']
+      rfl
+
+/-- the loop state of the `while self._query_heap:` loop: `self`, `ready_types`, `next_scheduled`, `schedule_rescue`, "left by break" -/
+abbrev PState := QueryScheduler × PySet String × Option Nat × List Nat × Bool
+
+/-- one round of the `while self._query_heap:` loop, on the loop state alone -/
+def popBody (endT : Int) (st : PState) : Except PyExc (ForInStep PState) :=
+  match st.1.query_heap with
+  | [] => .ok (.done (st.1, st.2.1, st.2.2.1, st.2.2.2.1, true))
+  | v :: rest =>
+    match st.1.store.get v with
+    | .error e => .error e
+    | .ok o =>
+      if o.cancelled then .ok (.yield ({ st.1 with query_heap := rest }, st.2.1, st.2.2.1, st.2.2.2.1, st.2.2.2.2))
+      else if o.when_millis > endT then .ok (.done (st.1, st.2.1, some v, st.2.2.2.1, true))
+      else
+        match PyDict.delItem strEq st.1.next_scheduled_for_alias o.alias with
+        | .error e => .error e
+        | .ok d => .ok (.yield ({ st.1 with next_scheduled_for_alias := d, query_heap := rest }, PySet.add strEq st.2.1 o.name,
+                                st.2.2.1, st.2.2.2.1 ++ [v], st.2.2.2.2))
+
+/-- the `while` loop of `_process_ready_types` against the model's `popReady2`: whenever the model's loop succeeds, so does the
+translated one (within the fuel), popping the same live objects in the same order, leaving the same heap and the same dict -/
+theorem pop_loop (endT : Int) (s : QueryScheduler) (hp : List Nat) :
+    ∀ (d : PyDict String Nat) (md : Sched2.Dict) (rt : PySet String) (ns : Option Nat) (resc : List Nat)
+      (r : List Obj × List Obj × Sched2.Dict) (fuel : Nat),
+      hp.length < fuel →
+      (∀ i ∈ hp, (PyStore.get? s.store i).isSome) →
+      PyDict.WF strEq d → (∀ a, PyDict.get? strEq d a = dget a md) →
+      popReady2 endT (hp.map (objOf s.store)) md = .ok r →
+      ∃ (objs : List (Nat × ScheduledPTRQuery)) (rem : List Nat) (d' : PyDict String Nat),
+        iterM (popBody endT) fuel ({ s with query_heap := hp, next_scheduled_for_alias := d }, rt, ns, resc, false)
+          = .ok ({ s with query_heap := rem, next_scheduled_for_alias := d' }, (objs.map (·.2.name)).foldl (PySet.add strEq) rt,
+                 (match rem with | [] => ns | v :: _ => some v), resc ++ objs.map (·.1), true)
+        ∧ r.1 = objs.map (fun p => ⟨p.1, toQ p.2⟩) ∧ r.2.1 = rem.map (objOf s.store)
+        ∧ (∀ a, PyDict.get? strEq d' a = dget a r.2.2) ∧ PyDict.WF strEq d'
+        ∧ (∀ p ∈ objs, PyStore.get? s.store p.1 = some p.2 ∧ p.2.cancelled = false)
+        ∧ (∀ i ∈ rem, i ∈ hp) := by
+  induction hp with
+  | nil =>
+    intro d md rt ns resc r fuel hfuel _ hwf hd hpop
+    cases fuel with
+    | zero => cases hfuel
+    | succ n =>
+      simp only [List.map_nil, popReady2, Except.ok.injEq] at hpop
+      subst hpop
+      refine ⟨[], [], d, ?_, rfl, rfl, hd, hwf, (fun _ h => by cases h), (fun _ h => by cases h)⟩
+      simp [iterM, popBody]
+  | cons v rest ih =>
+    intro d md rt ns resc r fuel hfuel hs hwf hd hpop
+    cases fuel with
+    | zero => cases hfuel
+    | succ n =>
+      have hn : rest.length < n := by simp only [List.length_cons] at hfuel; omega
+      have hs' : ∀ i ∈ rest, (PyStore.get? s.store i).isSome := fun i hi => hs i (List.mem_cons_of_mem _ hi)
+      obtain ⟨o, ho⟩ := Option.isSome_iff_exists.1 (hs v (List.mem_cons_self ..))
+      have hget : PyStore.get s.store v = .ok o := by simp [PyStore.get, ho]
+      have hobj : objOf s.store v = ⟨v, toQ o⟩ := by simp [objOf, PyStore.getD, ho]
+      rw [List.map_cons, hobj] at hpop
+      simp only [popReady2, toQ, Gen.Browser.ready_not_due] at hpop
+      by_cases hc : o.cancelled = true
+      · simp only [hc, if_true] at hpop
+        obtain ⟨objs, rem, d', hit, h1, h2, h3, h4, h5, h6⟩ := ih d md rt ns resc r n hn hs' hwf hd hpop
+        refine ⟨objs, rem, d', ?_, h1, h2, h3, h4, h5, fun i hi => List.mem_cons_of_mem _ (h6 i hi)⟩
+        rw [iterM]
+        simp only [popBody, hget, hc, if_true]
+        exact hit
+      · have hc' : o.cancelled = false := by cases h : o.cancelled <;> simp_all
+        simp only [hc', Bool.false_eq_true, if_false] at hpop
+        by_cases hdue : o.when_millis > endT
+        · simp only [hdue, decide_true, if_true, Except.ok.injEq] at hpop
+          subst hpop
+          refine ⟨[], v :: rest, d, ?_, rfl, ?_, hd, hwf, (fun _ h => by cases h), (fun i hi => hi)⟩
+          · rw [iterM]
+            simp [popBody, hget, hc', hdue]
+          · simp [hobj, toQ, hc']
+        · simp only [hdue, decide_false, Bool.false_eq_true, if_false] at hpop
+          cases hdg : dget o.alias md with
+          | none => simp [hdg] at hpop
+          | some j =>
+            simp only [hdg] at hpop
+            have hdel : PyDict.delItem strEq d o.alias = .ok (PyDict.erase strEq d o.alias) := by
+              simp [PyDict.delItem, PyDict.contains, hd o.alias, hdg]
+            have hd1 : ∀ a, PyDict.get? strEq (PyDict.erase strEq d o.alias) a = dget a (ddel o.alias md) := by
+              intro a
+              rw [PyDict.get?_erase strEq_keyEq hwf, dget_ddel, hd a]
+              simp only [strEq, decide_eq_true_eq]
+            cases hrec : popReady2 endT (rest.map (objOf s.store)) (ddel o.alias md) with
+            | error e => simp [hrec] at hpop
+            | ok r1 =>
+              simp only [hrec, Except.ok.injEq] at hpop
+              subst hpop
+              obtain ⟨objs, rem, d', hit, h1, h2, h3, h4, h5, h6⟩ :=
+                ih (PyDict.erase strEq d o.alias) (ddel o.alias md) (PySet.add strEq rt o.name) ns (resc ++ [v]) r1 n hn hs'
+                  (PyDict.WF_erase hwf _) hd1 hrec
+              refine ⟨(v, o) :: objs, rem, d', ?_, ?_, h2, h3, h4, ?_, fun i hi => List.mem_cons_of_mem _ (h6 i hi)⟩
+              · rw [iterM]
+                simp only [popBody, hget, hc', hdue, hdel, Bool.false_eq_true, if_false]
+                rw [hit]
+                simp
+              · simp [h1, toQ, hc']
+              · intro p hp
+                cases hp with
+                | head => exact ⟨ho, hc'⟩
+                | tail _ h => exact h5 p h
+
+theorem insert2_ne_nil (o : Obj) (l : List Obj) : insert2 o l ≠ [] := by
+  cases l with
+  | nil => simp [insert2]
+  | cons h t => simp only [insert2]; split <;> simp
+
+theorem rescueStep_heap_ne (now : Int) (m : S2) (q : Q) (hm : m.heap ≠ []) : (rescueStep now m q).heap ≠ [] := by
+  unfold rescueStep
+  split
+  · unfold schedule2 rearmIfEarlier2
+    split
+    · exact insert2_ne_nil _ _
+    · split
+      · exact insert2_ne_nil _ _
+      · exact insert2_ne_nil _ _
+  · exact hm
+
+theorem foldl_rescueStep_heap_ne (now : Int) (qs : List Q) (m : S2) (hm : m.heap ≠ []) : (qs.foldl (rescueStep now) m).heap ≠ [] := by
+  induction qs generalizing m with
+  | nil => exact hm
+  | cons q r ih => exact ih _ (rescueStep_heap_ne now m q hm)
+
+/-- the model's fold of rescues, as a fold of `rescueStep` -/
+theorem foldl_rescue (now : Int) (l : List Obj) (m : S2) :
+    (l.filterMap (fun o => rescueOf now o.q)).foldl schedule2 m = (l.map (·.q)).foldl (rescueStep now) m := by
+  induction l generalizing m with
+  | nil => rfl
+  | cons o r ih =>
+    rw [List.filterMap_cons, List.map_cons, List.foldl_cons]
+    unfold rescueStep
+    cases rescueOf now o.q with
+    | none => exact ih m
+    | some q => rw [List.foldl_cons]; exact ih _
+
+theorem armedAfter_callAt (clk : Int) (a : Option (Timer × Int)) (xs : List SEffect) (w : Int) :
+    armedAfter clk a (xs ++ [SEffect.callAt w Cb.ready]) = some (.ready, w) := by
+  unfold armedAfter
+  rw [List.foldl_append]
+  rfl
+
+theorem forIn_congr_body {α σ : Type} (l : List α) (st : σ) (f g : α → σ → Except PyExc (ForInStep σ)) (hf : ∀ x st, f x st = g x st) :
+    forIn l st f = forIn l st g := by
+  have : f = g := funext fun x => funext fun st => hf x st
+  rw [this]
+
+/-- the body of the rescue loop -/
+def rescueBody (now : Int) (q : Nat) (st : QueryScheduler × List SEffect) : Except PyExc (ForInStep (QueryScheduler × List SEffect)) :=
+  match st.1.schedule_rescue_query q now 100 with
+  | .error e => .error e
+  | .ok v => .ok (.yield (v.1, st.2 ++ v.2))
+
+/-- the instant `_process_ready_types` arms the next wake-up for, read off the translated state -/
+def nextWhenGen (s2 : QueryScheduler) (now : Int) : Int :=
+  match s2.query_heap with
+  | [] => now + s2.min_time_between_queries_millis
+  | w :: _ =>
+    if (PyStore.getD s2.store w default).when_millis > now + s2.min_time_between_queries_millis then
+      (PyStore.getD s2.store w default).when_millis
+    else now + s2.min_time_between_queries_millis
+
+theorem nextWhen_eq {c : Cfg} {s2 : QueryScheduler} {m2 : S2} (hr2 : Rel c s2 m2) (now : Int) :
+    nextWhen c (m2.heap.map (·.q)) now = nextWhenGen s2 now := by
+  unfold nextWhen nextWhenGen
+  rw [hr2.heap]
+  cases s2.query_heap with
+  | nil => simp [Gen.Browser.next_is_scheduled, Gen.Browser.next_time, hr2.minDelay]
+  | cons w rest =>
+    simp only [List.map_cons, List.head?_cons, Gen.Browser.next_is_scheduled, Gen.Browser.next_time, hr2.minDelay, Bool.true_and,
+      decide_eq_true_eq, objOf, toQ]
+
+theorem ready_tail {c : Cfg} {s2 : QueryScheduler} {m2 : S2} (hr2 : Rel c s2 m2) (hok2 : StoreOk s2) (now : Int) :
+    Rel c { s2 with earliest_next_run_millis := now + s2.min_time_between_queries_millis, next_run_millis := nextWhenGen s2 now,
+                    next_run := some () }
+          (armReady2 { m2 with earliest := Gen.Browser.next_time now c.minDelay } (nextWhen c (m2.heap.map (·.q)) now))
+    ∧ StoreOk { s2 with earliest_next_run_millis := now + s2.min_time_between_queries_millis, next_run_millis := nextWhenGen s2 now,
+                        next_run := some () } := by
+  refine ⟨⟨hr2.sent, hr2.heap, hr2.dict, hr2.nextId, rfl, ?_, ?_, hr2.minDelay, hr2.types, hr2.interval, hr2.resolution⟩,
+    ⟨hok2.fresh, hok2.heapIds, hok2.heapStored, hok2.dictWF⟩⟩
+  · exact nextWhen_eq hr2 now
+  · simp [armReady2, Gen.Browser.next_time, hr2.minDelay]
+
+/-- **`_process_ready_types`** is the model's `fireReady2`, whenever the model's pop loop succeeds (it fails only on a popped live entry
+whose alias is not in the dict: `KeyError` in Python too): same heap, same dict, the same rescue queries scheduled, the same timer armed
+next, and one `async_send_ready_queries` call whose `types` are the popped names **as a set** (the model lists them with repetitions). -/
+theorem process_ready_types_eq {c : Cfg} {s : QueryScheduler} {m : S2} (h : Rel c s m) (hok : StoreOk s) (hl : s.loop.isSome)
+    (now clk : Int) (r : List Obj × List Obj × Sched2.Dict) (hpop : popReady2 now m.heap m.dict = .ok r) :
+    ∃ s' eff m' outs, s.process_ready_types false now = .ok (s', eff)
+      ∧ fireReady2 c m now false = .ok (m', outs)
+      ∧ Rel c s' m' ∧ StoreOk s' ∧ s'.loop = s.loop
+      ∧ armedAfter clk none eff = m'.armed
+      ∧ sendsOf c eff = outs.map (fun sd => { sd with types := PySet.ofList strEq sd.types }) := by
+  unfold QueryScheduler.process_ready_types fireReady2
+  simp only [bind, Except.bind, pure, Except.pure, Bool.false_eq_true, if_false, hpop]
+  rw [forIn_except_iterM (body := popBody (now + s.clock_resolution_millis))]
+  case hf =>
+    intro x st
+    obtain ⟨s0, rt, ns, resc, left⟩ := st
+    simp only [popBody]
+    cases hq : s0.query_heap with
+    | nil => simp
+    | cons v rest =>
+      simp only [List.isEmpty_cons, Bool.false_eq_true, if_false, PyList.first, PyHeap.pop]
+      cases s0.store.get v with
+      | error e => rfl
+      | ok o =>
+        simp only []
+        cases o.cancelled with
+        | true => simp
+        | false =>
+          simp only [Bool.false_eq_true, if_false, decide_eq_true_eq]
+          split
+          · rfl
+          · cases PyDict.delItem strEq s0.next_scheduled_for_alias o.alias <;> rfl
+  rw [List.length_range, h.resolution, Int.add_zero]
+  rw [h.heap] at hpop
+  obtain ⟨objs, rem, d', hit, h1, h2, h3, h4, h5, h6⟩ :=
+    pop_loop now s s.query_heap s.next_scheduled_for_alias m.dict PySet.empty none [] r (s.query_heap.length + 1) (Nat.lt_succ_self _)
+      hok.heapStored hok.dictWF h.dict hpop
+  have hit' : iterM (popBody now) (s.query_heap.length + 1) (s, PySet.empty, none, [], false) = _ := hit
+  simp only [hit', Bool.not_true, pyFuel_false, List.nil_append]
+  clear hit hit'
+  -- the rescue loop
+  have hrel1 : Rel c { s with query_heap := rem, next_scheduled_for_alias := d' } { m with heap := r.2.1, dict := r.2.2, armed := none } :=
+    ⟨h.sent, h2, h3, h.nextId, h.started, h.nextRun, h.earliest, h.minDelay, h.types, h.interval, h.resolution⟩
+  have hok1 : StoreOk { s with query_heap := rem, next_scheduled_for_alias := d' } :=
+    ⟨hok.fresh, fun i hi => hok.heapIds i (h6 i hi), fun i hi => hok.heapStored i (h6 i hi), h4⟩
+  rw [forIn_congr_body (g := rescueBody now)]
+  case hf => intro q st; simp only [rescueBody]; cases st.1.schedule_rescue_query q now 100 <;> rfl
+  obtain ⟨s2, eff2, hfor, hr2, hok2, hloop2, hle2, hsend2⟩ :=
+    rescue_loop now objs _ _ [] (rescueBody now)
+      (by intro q st; simp only [rescueBody]) hrel1 hok1 hl h5
+  rw [List.nil_append] at hfor
+  simp only [hfor]
+  have hfold : (r.1.filterMap (fun o => rescueOf now o.q)).foldl schedule2 { m with heap := r.2.1, dict := r.2.2, armed := none }
+      = (objs.map (fun p => toQ p.2)).foldl (rescueStep now) { m with heap := r.2.1, dict := r.2.2, armed := none } := by
+    rw [foldl_rescue, h1, List.map_map]
+    rfl
+  rw [hfold]
+  have hne : rem ≠ [] →
+      ((objs.map (fun p => toQ p.2)).foldl (rescueStep now) { m with heap := r.2.1, dict := r.2.2, armed := none }).heap ≠ [] := by
+    intro hrem
+    apply foldl_rescueStep_heap_ne
+    show r.2.1 ≠ []
+    rw [h2]
+    simpa using hrem
+  generalize (objs.map (fun p => toQ p.2)).foldl (rescueStep now) { m with heap := r.2.1, dict := r.2.2, armed := none } = m2
+    at hr2 hne ⊢
+  have hl2 : s2.loop.isSome := by rw [hloop2]; exact hl
+  have hre : PySet.isEmpty (List.foldl (PySet.add strEq) PySet.empty (objs.map (fun x => x.2.name))) = objs.isEmpty := by
+    rw [PySet.isEmpty_foldl_add]
+    cases objs <;> rfl
+  have hr1e : r.1.isEmpty = objs.isEmpty := by rw [h1]; cases objs <;> rfl
+  obtain ⟨hrelF, hokF⟩ := ready_tail hr2 hok2 now
+  have hloopF : s2.loop = s.loop := hloop2
+  have hcl : ∀ w, QueryScheduler.arm_ready_types { s2 with earliest_next_run_millis := now + s2.min_time_between_queries_millis } w
+      = .ok ({ s2 with earliest_next_run_millis := now + s2.min_time_between_queries_millis, next_run_millis := w, next_run := some () },
+             [SEffect.callAt w Cb.ready]) := fun w => arm_ready_types_closed _ w hl2
+  have hrt : List.foldl (PySet.add strEq) PySet.empty (objs.map (fun x => x.2.name)) = PySet.ofList strEq (r.1.map (fun x => x.q.name)) := by
+    rw [h1, List.map_map]
+    rfl
+  have hsendF : ∀ W, sendsOf c (eff2 ++ [SEffect.callAt W Cb.ready]) = [] := by
+    intro W; rw [sendsOf_append, hsend2]; rfl
+  have hsendG : ∀ W rt, sendsOf c (eff2 ++ [SEffect.send false now rt] ++ [SEffect.callAt W Cb.ready])
+      = [{ t := now, first := false, qtype := sendQtype c false, types := rt }] := by
+    intro W rt; rw [sendsOf_append, sendsOf_append, hsend2]; rfl
+  have harmF : ∀ xs, armedAfter clk none (xs ++ [SEffect.callAt (nextWhenGen s2 now) Cb.ready])
+      = (armReady2 { m2 with earliest := Gen.Browser.next_time now c.minDelay } (nextWhen c (m2.heap.map (·.q)) now)).armed := by
+    intro xs; rw [armedAfter_callAt, nextWhen_eq hr2 now]; rfl
+  by_cases hq2 : s2.query_heap = []
+  · have hrem : rem = [] := by
+      apply Classical.byContradiction
+      intro hx
+      have := hne hx
+      rw [hr2.heap, hq2] at this
+      exact this rfl
+    have hW : nextWhenGen s2 now = now + s2.min_time_between_queries_millis := by simp [nextWhenGen, hq2]
+    have hie : s2.query_heap.isEmpty = true := by rw [hq2]; rfl
+    rw [hW] at hrelF hokF
+    simp only [hW] at harmF
+    subst hrem
+    cases hoe : objs.isEmpty with
+    | true =>
+      rw [hoe] at hre hr1e
+      simp only [hie, Bool.not_true, Bool.false_eq_true, if_false, hre, Option.isNone_none, if_true,
+        arm_ready_types_closed, hl2, hr1e]
+      exact ⟨_, _, _, _, rfl, rfl, hrelF, hokF, hloopF, harmF _, hsendF _⟩
+    | false =>
+      rw [hoe] at hre hr1e
+      simp only [hie, Bool.not_true, Bool.not_false, Bool.false_eq_true, if_false, hre, Option.isNone_none, if_true,
+        arm_ready_types_closed, hl2, hr1e]
+      refine ⟨_, _, _, _, rfl, rfl, hrelF, hokF, hloopF, harmF _, ?_⟩
+      rw [hsendG, hrt]
+      rfl
+  · obtain ⟨w, rest2, hq2'⟩ := List.exists_cons_of_ne_nil hq2
+    obtain ⟨ow, how⟩ := Option.isSome_iff_exists.1 (hok2.heapStored w (by rw [hq2']; exact List.mem_cons_self ..))
+    have hgetw : PyStore.get s2.store w = .ok ow := by simp [PyStore.get, how]
+    have hie : s2.query_heap.isEmpty = false := by rw [hq2']; rfl
+    have hfirst : PyList.first s2.query_heap = .ok w := by rw [hq2']; rfl
+    by_cases hgt : ow.when_millis > now + s2.min_time_between_queries_millis
+    · have hW : nextWhenGen s2 now = ow.when_millis := by simp [nextWhenGen, hq2', PyStore.getD, how, hgt]
+      rw [hW] at hrelF hokF
+      simp only [hW] at harmF
+      cases hoe : objs.isEmpty with
+      | true =>
+        rw [hoe] at hre hr1e
+        simp only [hie, hfirst, Bool.not_true, Bool.not_false, Bool.false_eq_true, if_false, hre, Option.isNone_some, if_true, pyUnwrap, hgetw,
+          hgt, decide_true, arm_ready_types_closed, hl2, hr1e]
+        exact ⟨_, _, _, _, rfl, rfl, hrelF, hokF, hloopF, harmF _, hsendF _⟩
+      | false =>
+        rw [hoe] at hre hr1e
+        simp only [hie, hfirst, Bool.not_true, Bool.not_false, Bool.false_eq_true, if_false, hre, Option.isNone_some, if_true, pyUnwrap, hgetw,
+          hgt, decide_true, arm_ready_types_closed, hl2, hr1e]
+        refine ⟨_, _, _, _, rfl, rfl, hrelF, hokF, hloopF, harmF _, ?_⟩
+        rw [hsendG, hrt]
+        rfl
+    · have hW : nextWhenGen s2 now = now + s2.min_time_between_queries_millis := by simp [nextWhenGen, hq2', PyStore.getD, how, hgt]
+      rw [hW] at hrelF hokF
+      simp only [hW] at harmF
+      cases hoe : objs.isEmpty with
+      | true =>
+        rw [hoe] at hre hr1e
+        simp only [hie, hfirst, Bool.not_true, Bool.not_false, Bool.false_eq_true, if_false, hre, Option.isNone_some, if_true, pyUnwrap, hgetw,
+          hgt, decide_false, arm_ready_types_closed, hl2, hr1e]
+        exact ⟨_, _, _, _, rfl, rfl, hrelF, hokF, hloopF, harmF _, hsendF _⟩
+      | false =>
+        rw [hoe] at hre hr1e
+        simp only [hie, hfirst, Bool.not_true, Bool.not_false, Bool.false_eq_true, if_false, hre, Option.isNone_some, if_true, pyUnwrap, hgetw,
+          hgt, decide_false, arm_ready_types_closed, hl2, hr1e]
+        refine ⟨_, _, _, _, rfl, rfl, hrelF, hokF, hloopF, harmF _, ?_⟩
+        rw [hsendG, hrt]
+        rfl
+
+/-- with `zc.done` set the callback does nothing (the model: `fireReady2 … true = ({ m with armed := none }, [])`, the fired timer
+is simply not re-armed) -/
+theorem process_ready_types_done (s : QueryScheduler) (now : Int) : s.process_ready_types true now = .ok (s, []) := by
+  unfold QueryScheduler.process_ready_types
+  simp [bind, Except.bind, pure, Except.pure]
 
 end Zc.GenFacts.FnSched
